@@ -35,7 +35,14 @@ func runC31(c *simkit.Ctx) {
 		o.Drop = pickRate(0, 0, 50)
 		o.Reorder = pickRate(0, 300, 700)
 		sig := "honest-traffic"
-		if t.Prob(3, 4) {
+		if t.Prob(1, 8) {
+			// honest peers only, but nodes crash and restart (they fast-forward through what they missed)
+			o.Restart = pickRate(2, 5)
+			o.TimeSkip = pickRate(0, 20)
+			o.TargetHeight = uint32(3 + t.Choose(3))
+			o.MaxSteps = 12000
+			c.Probe("honest_run_with_restarts")
+		} else if t.Prob(3, 4) {
 			o.Byz = t.Choose(n)
 			o.ByzForgeCommit = pickRate(30, 100, 300)
 			o.ByzDoubleEndorse = pickRate(0, 50)
